@@ -1423,6 +1423,12 @@ static void end_query(ares_channel_t *channel, ares_server_t *server,
 
   ares_metrics_record(query, server, status, dnsrec);
 
+  /* Unlink the query from the channel before invoking the callback.  The
+   * callback is allowed to call back into the library, and ares_cancel() from
+   * within it must not find (and complete and free a second time) the very
+   * query that is currently being completed. */
+  ares_detach_query(query);
+
   /* Invoke the callback. */
   query->callback(query->arg, status, query->timeouts, dnsrec);
   ares_free_query(query);
